@@ -53,6 +53,17 @@ class TermEncoder:
         self.prefixes = LookupEncoder(lookup_size=lookup_preset.max_prefixes)
         self.datatypes = LookupEncoder(lookup_size=lookup_preset.max_datatypes)
 
+    def begin_statement(self) -> None:
+        """
+        Start a new group of rows (statement, graph start, namespace declaration).
+
+        Entries referenced by one group must all be resident when its last row
+        is read, so from here on an eviction must not hit an entry the group uses.
+        """
+        self.names.lookup.in_use = set()
+        self.prefixes.lookup.in_use = set()
+        self.datatypes.lookup.in_use = set()
+
     def encode_iri_indices(self, iri_string: str) -> tuple[Rows, int, int]:
         """
         Encode lookup indices for IRI.
@@ -307,6 +318,7 @@ def encode_triple(
     """
     triple = jelly.RdfTriple()
     terms = iter(terms)
+    term_encoder.begin_statement()
     rows = encode_spo(terms, term_encoder, repeated_terms, triple)
     row = jelly.RdfStreamRow(triple=triple)
     rows.append(row)
@@ -332,6 +344,7 @@ def encode_quad(
     """
     terms = iter(terms)
     quad = jelly.RdfQuad()
+    term_encoder.begin_statement()
     rows = encode_spo(terms, term_encoder, repeated_terms, quad)
     g = next(terms)
     if repeated_terms[Slot.graph] != g:
@@ -361,6 +374,7 @@ def encode_namespace_declaration(
 
     """
     iri = jelly.RdfIri()
+    term_encoder.begin_statement()
     [*rows] = term_encoder.encode_iri(value, iri=iri)
     declaration = jelly.RdfNamespaceDeclaration(name=name, value=iri)
     row = jelly.RdfStreamRow(namespace=declaration)
